@@ -561,7 +561,7 @@ MANIFEST = {
     "tabulated entry: rendered lines have exactly the requested width, 0 <= min <= max <= w); that a fold column's cell keeps every "
     "non-whitespace character is C02's theorem, here only evaluated on real output (the characters found inside the column's span are compared with the cell's SOURCE text).  Styles are not in the Lean model; they are checked by direct evaluation (cell_styles / border_styles: every printed character carries "
     "table.style + row style + header/column/footer style + its own style, blank fill and separators likewise), as are add_row's "
-    "rectangularity and a fixed column's width + padding BY POSITION.  Box.substitute (legacy_windows / ascii_only / safe_box) is modelled "
+    "cells (every column's cells ARE, by identity and position, the objects passed to add_row; created columns back-filled) and rectangularity and a fixed column's width + padding BY POSITION.  Box.substitute (legacy_windows / ascii_only / safe_box) is modelled "
     "through C08's Frames.substituteBox; a cell whose renderable raises makes the table raise exactly when it is consulted; control segments "
     "are transparent; Table.grid and Column objects are exercised; Column has no vertical alignment in 9.10.  Table.__rich_measure__ is modelled (`Table.richMeasure`) and compared per table.  "
     "Tables without columns are compared (widths, lines, measure, the AssertionError) but are outside the rectangle statement.  Domain of the direct evaluation: 'no negative column width' everywhere; the rest at available width >= structural "
